@@ -35,6 +35,7 @@ ERRNOS = {
     "EAGAIN": _errno.EAGAIN,
     "EROFS": _errno.EROFS,
     "ENOTDIR": _errno.ENOTDIR,
+    "EFBIG": _errno.EFBIG,
 }
 
 _TRUE = {
@@ -127,6 +128,8 @@ def resolve_faults(faults, twin, bufsize=4096):
                 at = 0
             elif where == "last_byte":
                 at = max(0, n - 1)
+            elif where == "from_end":
+                at = max(0, n - int(f.get("distance", 1)))
             elif where == "last_buffer":
                 # somewhere after the last buffer boundary: typically only flushed at exit
                 base = (n // bufsize) * bufsize
@@ -1431,8 +1434,23 @@ class Sim:
                 tb_tail = "".join(traceback.format_exception_only(type(e), e)).strip()[-400:]
             finally:
                 sys.settrace(None)
-            # interpreter exit: flush stdout; a failure here turns the status into 120
+            # Interpreter exit, as CPython does it for a script *file* (pythonrun.c):
+            #  1. right after the code object has run - whether it returned, raised SystemExit or
+            #     raised anything else - flush_io() flushes sys.stdout and *discards* any error;
+            #  2. at finalisation sys.stdout is flushed again, and a failure there turns the exit
+            #     status into 120.
+            # The two are not redundant.  When the text layer still holds a chunk larger than the
+            # BufferedWriter (the usual case: chunks are ~8 KiB, the buffer is st_blksize = 4 KiB),
+            # step 1 hands it straight to the device; if the device refuses, the chunk is gone, the
+            # error is swallowed, step 2 finds nothing left to flush - and the process exits with the
+            # status it would have had anyway.  (Validated against the real interpreter with
+            # RLIMIT_FSIZE, see run.py: exit_model_validation.)
             if not hang:
+                try:
+                    out.flush()
+                except BaseException as e:
+                    self.probe("flush_io_error_swallowed")
+                    self.log("flush_io_error_swallowed", error=type(e).__name__)
                 try:
                     out.flush()
                 except BaseException as e:
